@@ -20,6 +20,24 @@ let parse_v toks : vault_in =
       v_white = bool_of_tok white; v_auction = bool_of_tok auc }
   | _ -> failwith ("bad v line: " ^ S.concat " " toks)
 
+(* the extracted rules are pure: memoise them per distinct input line (Coq-datatype arithmetic is slow) *)
+module HK = Hashtbl.Make (struct
+    type t = int * vault_in
+    let equal = ( = )
+    let hash x = Hashtbl.hash_param 400 800 x
+  end)
+let memo_pos : pos HK.t = HK.create 4096
+let pos_of_vault_m (g : gen) (v : vault_in) : pos =
+  let k = ((match g with GV1 -> 1 | _ -> 2), v) in
+  match HK.find_opt memo_pos k with
+  | Some p -> p
+  | None -> let p = pos_of_vault g v in HK.replace memo_pos k p; p
+let memo_unsafe : bool HK.t = HK.create 4096
+let vault_unsafe_m (v : vault_in) : bool =
+  match HK.find_opt memo_unsafe (0, v) with
+  | Some b -> b
+  | None -> let b = vault_unsafe v in HK.replace memo_unsafe (0, v) b; b
+
 type proj = { counter : string; offs : (string * string) list; ids : string list;
               locked : Z.t; auctions : Z.t; nauc : Z.t; vbal : Z.t; abal : Z.t }
 
@@ -84,7 +102,7 @@ let run (path : string) =
         let app_ok = (match !gen with
             | GV1 -> L.exists (fun (a, blocked) -> BinInt.Z.eqb a v.v_app && not blocked) blocked_apps
             | _ -> true) in
-        if hyp_global && app_ok && vault_unsafe v && live_hyp_vault !gen v then begin
+        if hyp_global && app_ok && vault_unsafe_m v && live_hyp_vault !gen v then begin
           match Hashtbl.find_opt tracked id with
           | Some t -> t.age <- t.age + 1
           | None -> Hashtbl.replace tracked id { age = 1; m = n; c = 0; reported = false }
@@ -152,7 +170,7 @@ let run (path : string) =
       | [ "op"; "liq"; id; cls ] ->
         incr step; incr steps; last_op := "liq";
         check_inputs_match ();
-        let poss = L.map (pos_of_vault GV2) !inputs in
+        let poss = L.map (pos_of_vault_m GV2) !inputs in
         (match msg_liquidate GV2 poss (z_of_string id) with
          | Base.Ok (seized, l') ->
            expect_class "ok" cls;
@@ -174,7 +192,7 @@ let run (path : string) =
         if z_of_string b <> !batch then mism "batch" (zs !batch) b;
         check_inputs_match ();
         live_pre apps;
-        let poss = L.map (pos_of_vault !gen) !inputs in
+        let poss = L.map (pos_of_vault_m !gen) !inputs in
         (match !gen with
          | GV1 ->
            (match sweep_v1 capf !batch apps { s_list = poss; s_counter = !m_counter; s_offs = !m_offs } [] with
@@ -226,7 +244,7 @@ let run (path : string) =
                    ~detail:(Printf.sprintf "id=%s_seized_on_the_safe_side" (zs v.v_id))
                else bump "safe:seized-unsafe-side") gone_inputs;
            L.iter (fun v -> if L.mem (zs v.v_id) p.ids then
-                      bump (if vault_unsafe v then "safe:kept-unsafe" else "safe:kept-safe")) !last_inputs;
+                      bump (if vault_unsafe_m v then "safe:kept-unsafe" else "safe:kept-safe")) !last_inputs;
            let amts = L.map (fun v -> v.v_amt_in) gone_inputs in
            let cust (x : proj) = { c_vault = z_of_zz x.vbal; c_auction = z_of_zz x.abal; c_locked = z_of_zz x.locked;
                                    c_auctions = z_of_zz x.auctions } in
